@@ -364,7 +364,7 @@ def main(run):
         run.count_case((c.name, str(c.F)))
         if c.raised is not None:
             n_raised += 1
-            if not c.expect_raise:
+            if not c.expect_raise and c.known_class is None:
                 # a supported differentiation raises: not a wrong value, but the tie is broken
                 run.violation({"broken": "derivative of a supported configuration raised", "case": c.name,
                                "F": str(c.F), "exception": c.raised, "note": c.note}, True)
@@ -414,10 +414,21 @@ def main(run):
         run.violation(rep, bool(w))
 
     # known finding: Grad of a coefficient that has a user-supplied derivative -------------------
+    # The behaviour is detected, not assumed: the configurations of this class may (a) raise -- the
+    # "raises instead of a wrong value" half of the property holds and C02_raises_refuted does not
+    # apply to this tree (its premise `gradable k id = false` for a related coefficient, i.e. "the
+    # Grad rule returns 0 for it", is false); (b) return the right value -- proved like any case;
+    # (c) return a wrong value -- KNOWN-FINDING if the finding is open and the behaviour is the
+    # recorded one, VIOLATION otherwise.
+    behaviour = {}
     for c in cfgs:
-        if c.known_class is None or c.raised is not None:
+        if c.known_class is None:
+            continue
+        if c.raised is not None:
+            behaviour[c.name] = "raises: " + c.raised[:120]
             continue
         w = K.derivative_oracle(c.F, c.out, c.variation, trials=30, seed=run.seed)
+        behaviour[c.name] = "returns the true derivative" if w is None else "returns a wrong value"
         if w is None:
             # not (or no longer) wrong: it has to be provable like every other case
             cs = c.case()
@@ -440,6 +451,16 @@ def main(run):
                            "implementation_result": str(c.out)[:1000], "witness": w,
                            "reproduce": "expand_derivatives(derivative(F, w, v, coefficient_derivatives=cd))"}, True)
 
+    wrong = any(b.startswith("returns a wrong") for b in behaviour.values())
+    run.extra["grad_of_related_coefficient_behaviour"] = behaviour
+    run.extra["C02_raises_refuted_applies_to_this_tree"] = wrong
+    run.extra["C02_raises_refuted_note"] = (
+        "the Grad rule returns 0 for grad(f) of a coefficient with a user relation: the model parameter "
+        "`gradable f = false` describes this tree and C02_raises_refuted exhibits the defect" if wrong else
+        "not applicable: the Grad rule of this tree does not return a value for grad(f) of a coefficient with "
+        "a user relation (it raises, or differentiates it correctly), so the premise of C02_raises_refuted "
+        "(`gradable f = false`, result Zero) does not describe the code; the raise-or-correct half holds and "
+        "C02_gateaux_partial covers every expression the rule table accepts")
     run.trusted.update([
         "Coq 8.16.1 kernel (coqc); vm_compute used for normalisation, no native_compute",
         "py/ufl2coq.py serializer (node-for-node, fail-closed); float literals read as the small rational they round",
